@@ -150,12 +150,19 @@ def cases_c01(tier, seed):
         cases.append(("g5 seed=%d" % (seed * 1000 + i), gen.g5(seed * 1000 + i)))
     cases.append(("gmis", gen.gmis(seed)))
     # shape enumeration (G3)
+    cases += gen.g3_edge(16, 200)
+    deep = gen.g3_deep(20, 300)
+    mixed = gen.g3_mixed(20, 300, 3, True) + gen.g3_mixed(20, 300, 3, False)
     if tier == "quick":
         rng = random.Random(seed)
+        cases += rng.sample(deep, 50)
+        cases += rng.sample(mixed, 90)
         allr = gen.g3_ranges(24, 200, (3, 6, 11, 17))
         cases += rng.sample(allr, 120)
         cases += gen.g3_subsets(12, 200, (2, 5, 9), masks=rng.sample(range(1 << 12), 60), touches=(None, 5))
     else:
+        cases += deep + gen.g3_deep(26, 300, every=2) + gen.g3_edge(24, 200) + gen.g3_edge(12, 300)
+        cases += mixed + gen.g3_mixed(26, 300, 2, True) + gen.g3_mixed(30, 200, 3, True)
         cases += gen.g3_ranges(24, 200, (3, 6, 11, 17))
         cases += gen.g3_ranges(30, 300, (4, 15, 22))
         cases += gen.g3_ranges(40, 40, (4, 15, 22), stride=2)
@@ -298,6 +305,9 @@ def cases_c05(tier, seed):
     rng = random.Random(seed + 5)
     allr = gen.g3_ranges(24, 200, (3, 6, 11, 17))
     cases += rng.sample(allr, 60 if tier == "quick" else len(allr))
+    cases += gen.g3_edge(16, 200)
+    deep = gen.g3_deep(20, 300)
+    cases += rng.sample(deep, 50) if tier == "quick" else deep
     return cases
 
 
